@@ -19,17 +19,29 @@ package options
 import (
 	"fmt"
 	"regexp"
+	"sort"
 	"strings"
 )
 
 // SubstituteVariables will perform variable substitution according to a substitution map.
 // Example: SubstituteVariables("echo ${job.name}", map[string]string{"job.name": "jobconfig-sample.1650645000"})
+//
+// All variables are substituted in a single pass, so the result does not depend
+// on the iteration order of submap even if a value itself contains variable syntax.
 func SubstituteVariables(target string, submap map[string]string) string {
-	for name, value := range submap {
-		search := fmt.Sprintf("${%v}", name)
-		target = strings.ReplaceAll(target, search, value)
+	if len(submap) == 0 {
+		return target
 	}
-	return target
+	names := make([]string, 0, len(submap))
+	for name := range submap {
+		names = append(names, name)
+	}
+	sort.Strings(names)
+	oldnew := make([]string, 0, len(names)*2)
+	for _, name := range names {
+		oldnew = append(oldnew, fmt.Sprintf("${%v}", name), submap[name])
+	}
+	return strings.NewReplacer(oldnew...).Replace(target)
 }
 
 // SubstituteVariableMaps will perform variable substitution according to a list of substitution maps,
